@@ -148,7 +148,8 @@ def emit(node, ctx, line0, chain, file):
         title = " Title" if name == "admonition" else ""
         return [f + "{" + name + "}" + title] + head_opts + [""] * node["blank"] + inner + [""] * node["blank_end"] + [f]
     if t == "div":
-        inner = emit(node["ch"], ctx, line0 + 1, [("container", line0)] + chain, file)
+        blank = node.get("blank", 0)      # blank lines between the opening fence and the content
+        inner = [""] * blank + emit(node["ch"], ctx, line0 + 1 + blank, [("container", line0)] + chain, file)
         longest = 2
         for ln in inner:
             mm = re.match(r"[ >\-0-9.]*(:{3,})", ln)
@@ -430,7 +431,7 @@ def tree_st(allow_include=True, max_leaves=8):
             st.builds(lambda items: {"t": "ul", "items": items}, st.lists(seq, min_size=1, max_size=3)),
             st.builds(lambda items: {"t": "ol", "items": items}, st.lists(seq, min_size=1, max_size=2)),
             dir_st(seq), dir_st(seq),
-            st.builds(lambda ch: {"t": "div", "ch": ch}, seq),
+            st.builds(lambda ch, b: {"t": "div", "ch": ch, "blank": b}, seq, st.sampled_from([0, 0, 1, 2])),
         ]
         return st.one_of(*opts)
 
@@ -449,7 +450,8 @@ def wrappers():
           ("ul", lambda ch: {"t": "ul", "items": [ch]}),
           ("ul2", lambda ch: {"t": "ul", "items": [{"t": "leaf", "kind": "para"}, ch]}),
           ("ol", lambda ch: {"t": "ol", "items": [ch]}),
-          ("div", lambda ch: {"t": "div", "ch": ch})]
+          ("div", lambda ch: {"t": "div", "ch": ch}), ("div1", lambda ch: {"t": "div", "ch": ch, "blank": 1}),
+          ("div2", lambda ch: {"t": "div", "ch": ch, "blank": 2})]
     for name in ("note", "admonition"):
         for fence in "`:":
             for opts in ("none", "colon", "dash"):
